@@ -21,7 +21,8 @@
         ([bexpand]: block (I,J) cell (r,s) -> entry (I*b+r, J*b+s)) applied to the flattened right-hand
         side, re-chunked into column-0 blocks: [mk_solve_block].
    Proofs: AmgBlockCycleProofs.v (history independence, well-formedness), AmgBlockCycleLin.v
-   (linearity over central coefficients in a non-commutative ring). *)
+   (right-linearity in a non-commutative ring; linearity over base scalars), AmgBlockCycleSym.v (symmetry of the
+   V(1,1)-cycle over a ring with an involutive anti-automorphism). *)
 From Amgcl Require Import Scalar Vec Crs Kernels MatOps Relax DenseSolve Amg AmgExec Ilu Cheby
   DirectUtil Inverse StaticMat BlockInst BlockKernels.
 Local Open Scope S_scope.
